@@ -9,9 +9,11 @@ fn once(case: &Value, run: &Run) -> Acc {
         "edge" => crate::checks::nodelist::replay_edge(case, run),
         "path-history" => crate::checks::nodelist::replay_path_history(case, run),
         "query" => crate::checks::common::replay_query(case, run),
+        "parse-fresh" => crate::checks::lang::replay_fresh(case, run),
         "parse" | "parse-eval" => crate::checks::lang::replay(case, run),
         "ladder" => crate::checks::robust::replay_ladder(case, run),
         "built-index" | "built-slice" => crate::checks::robust::replay_built(case, run),
+        "ref-slot" => crate::checks::refs::replay_slot(case, run),
         "ref" | "ref-history" | "ref-seq" => crate::checks::refs::replay(case, run),
         "spelling" => crate::checks::spellings::replay(case, run),
         "spelling-sequence" => crate::checks::spellings::replay_sequence(case, run),
@@ -55,7 +57,13 @@ pub fn replay(path: &str) -> i32 {
             return 2;
         }
     };
-    let case: Value = match serde_json::from_str(&text) {
+    // replay files may hold documents deeper than serde_json's default recursion limit (assembled in code)
+    let parsed: Result<Value, serde_json::Error> = {
+        let mut de = serde_json::Deserializer::from_str(&text);
+        de.disable_recursion_limit();
+        serde::de::Deserialize::deserialize(&mut de)
+    };
+    let case: Value = match parsed {
         Ok(v) => v,
         Err(e) => {
             eprintln!("{} is not JSON: {}", path, e);
